@@ -16,7 +16,7 @@ _num = r"[-+]?(?:\d+\.?\d*(?:[eE][-+]?\d+)?|infinity|nan)"
 
 def parse_value(txt):
     """parse a Coq value made of lists, tuples, Z/nat/float literals and booleans"""
-    t = txt
+    t = txt.replace("PrimFloat.", "")
     t = re.sub(r"%(float|Z|nat|positive|Q|N)\b", "", t)
     t = re.sub(r"-?0x[0-9a-fA-F.]+p[-+]?\d+", lambda m: repr(float.fromhex(m.group(0))), t)
     t = t.replace(";", ",")
